@@ -41,6 +41,14 @@ CLAIMED = {
    note=TB + "`git config -l` output format is git's; the model starts from the line list.",
    technique="Lean 4 proof (case analysis of the key filter + fold invariant) + regenerated allow-list obligations + differential correspondence vs config.readGitConfig",
    ref="§5 C11"),
+ "C10": dict(
+   text="Lean theorems over the executable redirect/401 flow model for ALL listener tables, node graphs, access modes and helper behaviours: every emitted request that carries an Authorization value carries "
+        "one obtained for its own scheme/host/effective port (auth_confined, header_confined), no https->http hop exists in any chain, a chain has at most redirectLimit requests; redirect status list and hop "
+        "limit regenerated from lfshttp/client.go; the model's request trace is compared with the trace real listeners (plain/TLS, two ports, two host spellings, implicit ports 80/443) receive from the "
+        "in-process lfsapi.Client; the Go oracle decodes every received Authorization value back to the place it was issued for.",
+   note=TB + "NTLM/Negotiate and multistage credentials are not modelled; net/http and TLS are real but their fidelity is the harness's; 401 sequences are finite by construction (aside A2).",
+   technique="Lean 4 proof (invariant over the emitted-request trace by induction on fuel) + regenerated-constant obligations + trace correspondence vs lfsapi.Client on real listeners",
+   ref="§5 C10, Appendix K"),
 }
 PENDING_REASON = "check not built yet in this session (build in progress, see DESIGN.md §10); not claimed until its theorems and correspondence run"
 ALL = ["C%02d" % i for i in range(1, 21)]
